@@ -161,4 +161,270 @@ theorem flat_good {D : Entries} (h : FlatGood D) (hn : (keys D).Nodup) (hlen : D
   ⟨by simp only [DomC01, flat_dom D h, hn, decide_true, Bool.and_self], flat_norm D h, flat_docKeys D h,
     Nat.le_trans (flat_count D h) hlen⟩
 
+/-! ### 3. the first read -/
+
+/-- `_eval_expressions` touches the data and the expression table only -/
+theorem evalExpressions_tables (ev : Str → EvalResult) (s s' : SD) (h : evalExpressions ev s = .ok s') :
+    s' = { s with data := s'.data, exprs := [] } := by
+  unfold evalExpressions at h
+  simp only [bind, Except.bind, pure, Except.pure] at h
+  split at h
+  · cases h
+  · split at h
+    · cases h
+    · split at h
+      · cases h
+      · cases h; rfl
+
+/-- the hypotheses on the source: a well-formed flat document (the domain of `C05R.C05_read_layout`) in an admissible
+    layout, references name entries, the reference graph is acyclic, the literals are values of the writer's domain,
+    and a path as in `C01_roundtrip_file` -/
+structure SrcOK (doc : Doc) (lay : Lay) (tail : Str) (p : Comps) : Prop where
+  wf : DocWF doc = true
+  lay : LayOK lay doc.length = true
+  tail : tail.all isWs = true
+  cnt : countIds doc ≤ Gen.counterLimit + 1
+  len : doc.length ≤ Gen.counterLimit + 1
+  refs : docRefsOK doc = true
+  acyc : docAcyclic doc = true
+  lits : litsInDom doc = true
+  hj : isJsonPath p = false
+  hx : isXmlPath p = false
+  hr : resolveSpelled p = p
+
+section resolvable
+variable {doc : Doc} {lay : Lay} {tail : Str} {p : Comps} (H : SrcOK doc lay tail p)
+include H
+
+theorem pathOK : C16.PathOK p := ⟨H.hj, H.hx, H.hr⟩
+
+/-- the evaluated data: flat, good scalars (ints from the evaluator, the literals, copies of them) under the names -/
+theorem evalData_flat {c : Counter} (hc : C13.ValidCounter Gen.counterLimit c) (hres : docResolvable c doc = true) :
+    FlatGood (evalData c doc) := by
+  obtain ⟨D, S⟩ := exprSD_shape c H.wf hc H.cnt
+  intro e he
+  simp only [evalData, List.mem_map] at he
+  obtain ⟨a, ha, rfl⟩ := he
+  refine ⟨⟨a.1, rfl, ((docWF_iff.mp H.wf).1 a ha).1⟩, ?_⟩
+  have hs := List.all_eq_true.mp hres a ha
+  cases ht : C05.topoVal evalInt (exprSD c doc) (doc.length + 1) a.1 with
+  | none => rw [ht] at hs; cases hs
+  | some v =>
+    obtain ⟨x, hv, hx⟩ := topoVal_good S H.wf H.lits _ _ _ ht
+    exact ⟨x, by simp only [Option.getD_some]; exact hv, hx⟩
+
+omit H in
+theorem evalData_keys (c : Counter) : keys (evalData c doc) = (doc.map (·.1)).map Key.str := by
+  simp [evalData, keys]
+
+theorem evalData_good {c : Counter} (hc : C13.ValidCounter Gen.counterLimit c) (hres : docResolvable c doc = true) :
+    C16.Good (evalData c doc) := by
+  refine flat_good (evalData_flat H hc hres) ?_ (by simp only [evalData, List.length_map]; exact H.len)
+  rw [evalData_keys]
+  exact nodup_map_inj (fun a b h => by cases h; rfl) (docWF_iff.mp H.wf).2.1
+
+/-- **the first read**: whenever `DictReader.read` succeeds on the source it returns exactly `evalData c doc` -- every
+    name with the value of the specification, no `$` left, all side tables empty -/
+theorem first_read {c : Counter} (hc : C13.ValidCounter Gen.counterLimit c) (hres : docResolvable c doc = true)
+    {out : ReadOut} (hread : readFile evalInt [(p, .native (renderG doc lay tail))] {} c p = .ok out) :
+    out = .ok { data := evalData c doc } (labelAll c doc).1.counter := by
+  obtain ⟨s', rfl, h1, h2, h3⟩ := C05_read_layout_evalInt p c H.wf H.lay H.tail hc H.cnt H.refs H.acyc H.hj H.hx H.hr hread
+  rw [readFile_layout evalInt p c H.wf H.lay H.tail hc H.cnt H.hj H.hx H.hr] at hread
+  cases hev : evalExpressions evalInt (exprSD c doc) with
+  | error e => rw [hev] at hread; cases hread
+  | ok s'' =>
+    rw [hev] at hread
+    simp only [Except.map, Except.ok.injEq, ReadOut.ok.injEq] at hread
+    have e' : s'' = s' := hread.1
+    subst e'
+    have htab := evalExpressions_tables evalInt _ _ hev
+    have hn : (keys s''.data).Nodup := by
+      rw [h2]; exact nodup_map_inj (fun a b h => by cases h; rfl) (docWF_iff.mp H.wf).2.1
+    have hdata : s''.data = evalData c doc := by
+      have hl : ∀ k ∈ keys s''.data, lookup k s''.data = some
+          ((fun k => match k with
+            | .str n => (C05.topoVal evalInt (exprSD c doc) (doc.length + 1) n).getD (.leaf .none)
+            | .int _ => .leaf .none) k) := by
+        intro k hk
+        rw [h2] at hk
+        simp only [List.mem_map] at hk
+        obtain ⟨n, ⟨a, ha, rfl⟩, rfl⟩ := hk
+        have hs := List.all_eq_true.mp hres a ha
+        cases ht : C05.topoVal evalInt (exprSD c doc) (doc.length + 1) a.1 with
+        | none => rw [ht] at hs; cases hs
+        | some v =>
+          have := h3 _ _ ht
+          simp only [ht, Option.getD_some]; exact this
+      rw [entries_of_lookups _ _ hn hl, h2]
+      simp [evalData]
+    rw [htab, hdata]
+    rfl
+
+omit H in
+/-- the counter after the first read is one that can occur -/
+theorem counter_valid {c : Counter} (hc : C13.ValidCounter Gen.counterLimit c) :
+    C13.ValidCounter Gen.counterLimit (labelAll c doc).1.counter := by
+  rw [labelAll_counter]; exact C02.adv_valid _ hc
+
+end resolvable
+
+/-! ### 4. write–read cycles from a good state -/
+
+/-- what the real writer writes for either SDict holding `D`: the header, then the plain text of `D` -/
+theorem write_good {D : Entries} (G : C16.Good D) {sd : SD} (h : sd = { data := D } ∨ sd = C12.hdrSD D) :
+    fmtSD .native sd = some (C03.cycleText D) := by
+  rcases h with rfl | rfl
+  · exact C12.fmtSD_text _
+  · exact (C12.write_header G.dom).trans (C12.fmtSD_text _)
+
+/-- reading the text a cycle writes -/
+theorem read_good {D : Entries} (G : C16.Good D) (ev : Str → EvalResult) {q : Comps} (Q : C16.PathOK q) {c : Counter}
+    (hc : C13.ValidCounter Gen.counterLimit c) :
+    ∃ c', C13.ValidCounter Gen.counterLimit c' ∧
+      readFile ev [(q, .native (C03.cycleText D))] {} c q = .ok (.ok (C12.hdrSD D) c') :=
+  C01.readFile_dumped ev q G.dom G.norm G.doc G.cnt hc Q.hj Q.hx Q.hr
+
+/-- from either state every cycle writes `cycleText D` and reads `hdrSD D` -/
+theorem sdCycles_good {D : Entries} (G : C16.Good D) (ev : Str → EvalResult) {q : Comps} (Q : C16.PathOK q) :
+    ∀ (n : Nat) (sd : SD) (c : Counter), (sd = { data := D } ∨ sd = C12.hdrSD D) → C13.ValidCounter Gen.counterLimit c →
+      C03.sdCycles ev q n sd c = List.replicate n (C03.cycleText D, C12.hdrSD D)
+  | 0, _, _, _, _ => rfl
+  | n + 1, sd, c, hsd, hc => by
+    obtain ⟨c', hv, e⟩ := read_good G ev Q hc
+    have ih := sdCycles_good G ev Q n (C12.hdrSD D) c' (Or.inr rfl) hv
+    simp only [C03.sdCycles, write_good G hsd, e, ih, List.replicate_succ]
+
+theorem domStr_noDollar {s : Str} (h : isDomScalar .native (.str s) = true) : '$' ∉ s := by
+  intro hm
+  simp only [isDomScalar, isDomStr, Bool.and_eq_true, List.all_eq_true] at h
+  have := (h.1.1.1.1.1.1.1.1.1 _ hm).2
+  simp at this
+
+/-! ## property theorems -/
+
+/-! ### A. resolvable reference graphs -/
+
+/-- **C03 with `$`-references and expressions, one cycle** (`DictParser.parse` and the re-read of `parsed.<name>`).
+    `doc` is a flat document `key value;` (values: literals, references `$x`, integer expressions `"$a + $b"`) in the
+    domain of `C05_read_layout`, acyclic and fully resolvable; `p` the source file in any admissible layout, `q` the
+    file the result is written to.  If `DictReader.read(p)` succeeds:
+      1. what it returns is `{ data := evalData c doc }`: all side tables empty, every name holds the value of the
+         topological specification;
+      2. these values are plain scalars of the writer's domain (the literals and the integers `evalInt` returns): no
+         `$` is left;
+      3. the writer (`fmtSD .native`, as `DictParser.parse` calls it) writes the default header and the plain text of
+         the data;
+      4. reading that text gives, up to the header placeholder entry (`C01.dropPhEntries`), the data of the first
+         read; no expression is pending. -/
+theorem C03_expr_reread {doc : Doc} {lay : Lay} {tail : Str} {p q : Comps} (H : SrcOK doc lay tail p)
+    (Q : C16.PathOK q) {c : Counter} (hc : C13.ValidCounter Gen.counterLimit c) (hres : docResolvable c doc = true)
+    {sd₀ : SD} {c₁ : Counter}
+    (hread : readFile evalInt [(p, .native (renderG doc lay tail))] {} c p = .ok (.ok sd₀ c₁)) :
+    sd₀ = { data := evalData c doc } ∧
+    (∀ e ∈ sd₀.data, ∃ x, e.2 = .leaf x ∧ isDomScalar .native x = true ∧ ∀ s, x = .str s → '$' ∉ s) ∧
+    ∃ t sd₁ c₂, fmtSD .native sd₀ = some t ∧ t = nativeHeader ++ fmtPlain .native sd₀.data ∧
+      readFile evalInt [(q, .native t)] {} c₁ q = .ok (.ok sd₁ c₂) ∧
+      C01.dropPhEntries sd₁.data = sd₀.data ∧ sd₁.exprs = [] := by
+  have h0 := first_read H hc hres hread
+  simp only [ReadOut.ok.injEq] at h0
+  obtain ⟨rfl, rfl⟩ := h0
+  have G := evalData_good H hc hres
+  obtain ⟨c₂, _, hr⟩ := read_good G evalInt Q (counter_valid (doc := doc) hc)
+  refine ⟨rfl, ?_, C03.cycleText (evalData c doc), C12.hdrSD (evalData c doc), c₂, write_good G (Or.inl rfl), rfl, hr,
+    C01.dropPh_hdr G.noPh, rfl⟩
+  intro e he
+  obtain ⟨_, x, hx, hg⟩ := evalData_flat H hc hres e he
+  exact ⟨x, hx, hg.1, fun s hs => domStr_noDollar (hs ▸ hg.1)⟩
+
+/-- **C03 with `$`-references and expressions, every number of cycles.**  After the first read, `n` write–read cycles
+    with the real writer (`C03.sdCycles`: `fmtSD .native`, then `DictReader.read`) all write the same bytes
+    `nativeHeader ++ fmtPlain D` and all read the same SDict `hdrSD D`, `D` the data of the first read; apart from the
+    header placeholder entry its data is `D`.  In particular the bytes of cycle 2 are those of cycle 1, and for every
+    `n ≥ 1` the data after `n` cycles is the data of the first read. -/
+theorem C03_expr_cycles {doc : Doc} {lay : Lay} {tail : Str} {p q : Comps} (H : SrcOK doc lay tail p)
+    (Q : C16.PathOK q) {c : Counter} (hc : C13.ValidCounter Gen.counterLimit c) (hres : docResolvable c doc = true)
+    {sd₀ : SD} {c₁ : Counter}
+    (hread : readFile evalInt [(p, .native (renderG doc lay tail))] {} c p = .ok (.ok sd₀ c₁)) (n : Nat) :
+    C03.sdCycles evalInt q n sd₀ c₁ =
+      List.replicate n (nativeHeader ++ fmtPlain .native sd₀.data, C12.hdrSD sd₀.data) ∧
+    C01.dropPhEntries (C12.hdrSD sd₀.data).data = sd₀.data := by
+  have h0 := first_read H hc hres hread
+  simp only [ReadOut.ok.injEq] at h0
+  obtain ⟨rfl, rfl⟩ := h0
+  have G := evalData_good H hc hres
+  exact ⟨sdCycles_good G evalInt Q n _ _ (Or.inl rfl) (counter_valid (doc := doc) hc), C01.dropPh_hdr G.noPh⟩
+
+/-- the form the property is stated in: for `n ≥ 1` the last cycle read the data of the first read (up to the header
+    placeholder entry), and any two cycles wrote the same bytes -/
+theorem C03_expr_cycles_last {doc : Doc} {lay : Lay} {tail : Str} {p q : Comps} (H : SrcOK doc lay tail p)
+    (Q : C16.PathOK q) {c : Counter} (hc : C13.ValidCounter Gen.counterLimit c) (hres : docResolvable c doc = true)
+    {sd₀ : SD} {c₁ : Counter}
+    (hread : readFile evalInt [(p, .native (renderG doc lay tail))] {} c p = .ok (.ok sd₀ c₁)) (n : Nat) (hn : 1 ≤ n) :
+    (∃ t sd, (C03.sdCycles evalInt q n sd₀ c₁).getLast? = some (t, sd) ∧ C01.dropPhEntries sd.data = sd₀.data) ∧
+    ∀ x ∈ C03.sdCycles evalInt q n sd₀ c₁, ∀ y ∈ C03.sdCycles evalInt q n sd₀ c₁, x.1 = y.1 := by
+  obtain ⟨h1, h2⟩ := C03_expr_cycles H Q hc hres hread n
+  rw [h1]
+  refine ⟨⟨nativeHeader ++ fmtPlain .native sd₀.data, C12.hdrSD sd₀.data, ?_, h2⟩, ?_⟩
+  · obtain ⟨m, rfl⟩ : ∃ m, n = m + 1 := ⟨n - 1, by omega⟩
+    simp [List.getLast?_replicate]
+  · intro x hx y hy
+    rw [(List.mem_replicate.mp hx).2, (List.mem_replicate.mp hy).2]
+
+/-! ## non-vacuity -/
+
+/-- `a 2; b $a; c "$a * $b + 1"; s 'x y';` -/
+def exR : Doc :=
+  [("a".toList, .lit (.bare "2".toList)), ("b".toList, .ref "a".toList), ("c".toList, .expr "$a * $b + 1".toList),
+   ("s".toList, .lit (.quoted '\'' "x y".toList))]
+
+/-- a loose layout: tabs, blank lines, CR LF, two entries on one line -/
+def exRLay : Lay := [(['\n', ' '], ['\t'], [' ']), ([' '], [' ', ' '], []), (['\n'], ['\n', ' '], ['\r', '\n']), (['\n', '\n'], [' '], [])]
+
+def exP : Comps := ["w".toList, "case".toList]
+def exQ : Comps := ["w".toList, "parsed.case".toList]
+
+theorem exR_text : renderG exR exRLay "  \n".toList =
+    "\n a\t2 ; b  $a;\nc\n \"$a * $b + 1\"\r\n;\n\ns 'x y';  \n".toList := by decide +kernel
+
+theorem exR_ok : SrcOK exR exRLay "  \n".toList exP :=
+  ⟨by decide +kernel, by decide, by decide, by decide +kernel, by decide, by decide +kernel, by decide +kernel,
+   by decide +kernel, by decide, by decide, by decide⟩
+
+theorem exQ_ok : C16.PathOK exQ := ⟨by decide, by decide, by decide⟩
+
+theorem exR_resolvable : docResolvable none exR = true := by decide +kernel
+
+def exRData : Entries :=
+  [(.str "a".toList, .leaf (.int 2)), (.str "b".toList, .leaf (.int 2)), (.str "c".toList, .leaf (.int 5)),
+   (.str "s".toList, .leaf (.str "x y".toList))]
+
+theorem exR_evalData : evalData none exR = exRData := by decide +kernel
+
+/-- the first read succeeds on the example (kernel evaluation of the whole reader) -/
+theorem exR_read_ok : ∃ sd₀ c₁,
+    readFile evalInt [(exP, .native (renderG exR exRLay "  \n".toList))] {} none exP = .ok (.ok sd₀ c₁) := by
+  have h : C05.readData (readFile evalInt [(exP, .native (renderG exR exRLay "  \n".toList))] {} none exP) =
+      some exRData := by decide +kernel
+  cases hr : readFile evalInt [(exP, .native (renderG exR exRLay "  \n".toList))] {} none exP with
+  | error e => rw [hr] at h; simp [C05.readData] at h
+  | ok out =>
+    cases out with
+    | exit1 => rw [hr] at h; simp [C05.readData] at h
+    | ok sd c => exact ⟨sd, c, rfl⟩
+
+/-- the theorems on the example: the source in the loose layout is read as `a = 2, b = 2, c = 5, s = 'x y'`; three cycles
+    write the same bytes and read that data again -/
+theorem exR_cycles : ∃ c₁,
+    readFile evalInt [(exP, .native "\n a\t2 ; b  $a;\nc\n \"$a * $b + 1\"\r\n;\n\ns 'x y';  \n".toList)] {} none exP =
+      .ok (.ok { data := exRData } c₁) ∧
+    C03.sdCycles evalInt exQ 3 { data := exRData } c₁ =
+      List.replicate 3 (nativeHeader ++ fmtPlain .native exRData, C12.hdrSD exRData) ∧
+    C01.dropPhEntries (C12.hdrSD exRData).data = exRData := by
+  obtain ⟨sd₀, c₁, hread⟩ := exR_read_ok
+  obtain ⟨h0, _⟩ := C03_expr_reread exR_ok exQ_ok (Or.inl rfl) exR_resolvable hread
+  obtain ⟨h1, h2⟩ := C03_expr_cycles exR_ok exQ_ok (Or.inl rfl) exR_resolvable hread 3
+  rw [h0, exR_evalData] at h1 h2 hread
+  rw [exR_text] at hread
+  exact ⟨c₁, hread, h1, h2⟩
+
 end DictIO.C03expr
